@@ -811,10 +811,18 @@ func (n *IncludeNode) Render(w io.Writer, ctx *RenderContext) error {
 			// Only mode - create empty context
 			contextVars = make(map[string]interface{}, len(n.variables))
 		} else {
-			// For sandboxed mode but not 'only' mode, copy the parent context
+			// For sandboxed mode but not 'only' mode, copy everything the including
+			// template can see: its own variables and those of the contexts it was
+			// itself included or called from (inner contexts shadow outer ones)
 			contextVars = make(map[string]interface{}, len(ctx.context)+len(n.variables))
-			for k, v := range ctx.context {
-				contextVars[k] = v
+			var scopes []*RenderContext
+			for c := ctx; c != nil; c = c.parent {
+				scopes = append(scopes, c)
+			}
+			for i := len(scopes) - 1; i >= 0; i-- {
+				for k, v := range scopes[i].context {
+					contextVars[k] = v
+				}
 			}
 		}
 
